@@ -543,56 +543,76 @@ def oracle_errbuild(case, io):
     return None
 
 # ------------------------------------------------------------------------------------------------
-# `errctx` (oracle only): a failing Config.build while the CALLER is handling an unrelated exception.  api_entry takes the
-# reason of the re-created error from `e.__context__`, which Python sets implicitly: for an awesomeyaml error that was raised
-# directly (not wrapped at a rethrow point: the UnsafeError of an !unsafe node) that is the caller's exception.  Its traceback
-# is cut by one frame per call (`tb_next`); once it is exhausted the next call raises AttributeError.  Tracebacks and the
-# identity of the shared exception object are outside AY.Model.ErrWrap.  The witness runs only when KNOWN_FINDINGS lists the key
-# (finding D40, reported by wpE; the file is not written by this work package).
+# `errctx` (oracle only, strict): failing `Config.build` calls made while the CALLER is handling an exception of its own.
+# A case: {'kind': 'errctx', 'sample': 'unsafe' | 'eval' | 'merge' | 'required', 'caller': None (outside any handler) | 'KeyError'
+# | 'ValueError' | 'CustomBoom' | 'EvalError' (an awesomeyaml error of an earlier failure) | 'same' (the error of the same build:
+# a retry inside `except`), 'repeat': 1-4 consecutive calls inside the handler}.  Python sets `__context__` of whatever is raised
+# inside the handler to the caller's exception; until repo fix D43 `api_entry` took the reason of the re-created error from
+# `e.__context__` (finding D40): an error raised directly (the UnsafeError of an !unsafe node) came out caused by the caller's
+# exception, whose traceback was cut by one frame per call, and the second call crashed with AttributeError.
+# Oracle on the implementation alone: every call inside the handler raises the class the sample prescribes, with exactly the
+# class / `__cause__` chain of the same build made outside any handler; the caller's exception is nowhere on that chain; for
+# `unsafe` `__cause__ is None`; the guard is off afterwards.  Model side: Props/C12_ErrWrap.lean
+# `C12_directly_raised_error_has_no_foreign_cause`, `C12_api_entry_repeatable`; the leaf contexts of family `errwrap` compare
+# the same mechanism with AY.Model.ErrWrap.
 # ------------------------------------------------------------------------------------------------
 
-CTX_KEY = 'api-entry-caller-context'
-CTX_SOURCES = {'unsafe': 'a: !unsafe {c: !call:os.getcwd []}', 'eval': 'a: {c: !eval "1/0"}'}
+CTX_SOURCES = {'unsafe': ['a: !unsafe {c: !call:os.getcwd []}'], 'eval': ['a: {c: !eval "1/0"}'],
+               'merge': ['a: {x: 1}', 'a: !notnew {y: 2}'], 'required': ['a:\n  c: !required\n']}
+CTX_EXPECT = {'unsafe': ['UnsafeError'], 'eval': ['EvalError', 'ZeroDivisionError'], 'merge': ['MergeError', 'ValueError'], 'required': ['ValueError']}
+CTX_CALLERS = [None, 'KeyError', 'ValueError', 'CustomBoom', 'EvalError', 'same']
 
 def run_errctx(case):
     def attempt():
         try:
-            Config.build(CTX_SOURCES[case['sample']], raw_yaml=True)
+            Config.build(*CTX_SOURCES[case['sample']], raw_yaml=True)
             return None
         except BaseException as e:  # noqa
             return e
+    def seen(x, caller):
+        chain, c = [], x
+        while c is not None and len(chain) < 30:
+            chain.append(c); c = c.__cause__
+        return {'chain': [type(c).__name__ for c in chain], 'caller_on_chain': caller is not None and any(c is caller for c in chain[1:]),
+                'path': None if getattr(x, 'path', None) is None else str(x.path)}
     def body():
-        out = {'outside': None, 'inside': []}
-        x = attempt()
-        out['outside'] = [type(x).__name__, type(x.__cause__).__name__ if x is not None and x.__cause__ is not None else None]
-        try:
-            raise KeyError('what the caller was handling')
-        except KeyError as caller:
+        out = {'outside': seen(attempt(), None), 'inside': []}
+        def calls(caller):
             for _ in range(case.get('repeat', 2)):
-                x = attempt()
-                out['inside'].append([type(x).__name__, type(x.__cause__).__name__ if x is not None and x.__cause__ is not None else None,
-                                      x is not None and x.__cause__ is caller])
+                out['inside'].append(seen(attempt(), caller))
+        who = case.get('caller')
+        if who is None:
+            calls(None)
+        else:
+            try:
+                if who == 'same':
+                    Config.build(*CTX_SOURCES[case['sample']], raw_yaml=True)
+                    raise RuntimeError('errctx: the build did not fail')
+                raise (errors.EvalError('an earlier failure', None, 'x.y') if who == 'EvalError' else FOREIGN[who]('what the caller was handling'))
+            except Exception as caller:  # noqa
+                calls(caller)
         out['guard'] = guard()
         return out
     with FlagScope([True, True, True]):
         return in_thread(body)
 
 def oracle_errctx(case, io):
-    for i, (cls, cause, is_caller) in enumerate(io['inside']):
-        if cls != io['outside'][0]:
-            return (f'D40: Config.build({CTX_SOURCES[case["sample"]]!r}) raises {io["outside"][0]}; call #{i + 1} made while the caller handles a '
-                    f'KeyError raised {cls} instead')
-        if is_caller:
-            return (f'D40: Config.build({CTX_SOURCES[case["sample"]]!r}) made while the caller handles a KeyError: the {cls} has the '
-                    f"caller's KeyError as __cause__ (outside a handler the cause is {io['outside'][1]})")
+    src = ' <- '.join(repr(t) for t in CTX_SOURCES[case['sample']])
+    where = 'outside any handler' if case.get('caller') is None else f'inside the caller\'s `except` handling {case["caller"]}'
+    if io['outside']['chain'] != CTX_EXPECT[case['sample']]:
+        return f'Config.build({src}) outside any handler: class / cause chain {io["outside"]["chain"]}, expected {CTX_EXPECT[case["sample"]]}'
+    for i, r in enumerate(io['inside']):
+        if r['chain'] != io['outside']['chain']:
+            return (f'Config.build({src}) raises {io["outside"]["chain"]} (class, then __cause__ chain); call #{i + 1} made {where} '
+                    f'raised {r["chain"]}')
+        if r['caller_on_chain']:
+            return f"Config.build({src}) made {where}: the caller's exception is on the __cause__ chain of the {r['chain'][0]}"
+        if r['path'] != io['outside']['path']:
+            return f'Config.build({src}) made {where}: path {r["path"]!r}, outside a handler {io["outside"]["path"]!r}'
     return '_api_entered.value is still True' if io['guard'] else None
 
-def known_keys():
-    try:
-        import framework
-        return {k['key'] for k in framework.load_known() if k['property'] == 'C12'}
-    except Exception:  # noqa
-        return set()
+def gen_errctx(rng):
+    return {'kind': 'errctx', 'sample': rng.choice(sorted(CTX_SOURCES)), 'caller': rng.choice(CTX_CALLERS), 'repeat': rng.choice([1, 2, 2, 3, 4])}
 
 # ------------------------------------------------------------------------------------------------
 # dispatch used by props/c12.py
@@ -601,7 +621,9 @@ def known_keys():
 KINDS = ('errwrap', 'errbuild', 'errctx')
 
 def gen_cases(rng, n):
-    return [gen_errwrap(rng) if rng.random() < 0.8 else gen_errbuild(rng) for _ in range(n)]
+    out = [gen_errwrap(rng) if rng.random() < 0.8 else gen_errbuild(rng) for _ in range(n)]
+    r2 = random.Random(rng.random())      # drawn after the others: those stay as they were
+    return out + [gen_errctx(r2) for _ in range(max(4, n // 12))]
 
 def impl(case):
     if case['kind'] == 'errctx':
@@ -660,7 +682,11 @@ def render(case):
         case = dict(case, flags=[True, True, True])
     fl = dict(zip(['rethrow', 'include_original_exception', 'shorten_traceback'], case['flags']))
     if case['kind'] == 'errctx':
-        return [f'try: raise KeyError(...)', f'except KeyError: Config.build({CTX_SOURCES[case["sample"]]!r}, raw_yaml=True)   # {case.get("repeat", 2)} times']
+        call = 'Config.build(' + ', '.join(repr(t) for t in CTX_SOURCES[case['sample']]) + f', raw_yaml=True)   # {case.get("repeat", 2)} times'
+        who = case.get('caller')
+        if who is None:
+            return [call]
+        return ['try: ' + ('<the same Config.build>' if who == 'same' else f'raise {who}(...)'), f'except Exception: {call}']
     if case['kind'] == 'errbuild':
         return [f'errors switches: {fl}'] + ['Config.build source: ' + s for s in errbuild_sources(case)]
     return [f'errors switches: {fl}' + (' (two threads: A inside api_entry while B runs)' if case.get('mode') == 'threads' else '')] + \
@@ -668,7 +694,7 @@ def render(case):
 
 def features(case, io):
     if case['kind'] == 'errctx':
-        return ['kind:errctx', 'errctx:' + case['sample']]
+        return ['kind:errctx', 'errctx:' + case['sample'], 'errctx:caller=' + str(case.get('caller')), f'errctx:repeat={case.get("repeat", 2)}']
     f = ['kind:' + case['kind'], 'flags:' + ''.join('RIS'[i] if b else '-' for i, b in enumerate(case['flags']))]
     if case['kind'] == 'errbuild':
         f += ['errbuild:' + case['sample'], f'errbuild:depth={len(case["path"])}']
@@ -703,6 +729,8 @@ def shrink(case):
     if case['kind'] == 'errctx':
         if case.get('repeat', 2) > 1:
             yield dict(case, repeat=case.get('repeat', 2) - 1)
+        if case.get('caller') not in (None, 'KeyError'):
+            yield dict(case, caller='KeyError')
         return
     if case['kind'] == 'errbuild':
         if len(case['path']) > 1:
@@ -756,7 +784,8 @@ def corpus():
             dict(E('eval', ['a', 'b', 'c'], exc='KeyError'), flags=[True, True, False]), dict(E('eval', ['a', 0], exc='ValueError'), flags=[False, True, True]),
             E('call', ['a', 1], exc='TypeError'), E('call', ['a', 'b', 2], exc='ImportError'), dict(E('call', ['a', 1], exc='TypeError'), flags=[False, True, True]),
             dict(E('call', ['a', 'b'], exc='ValueError'), flags=[True, False, False])]
-    out.append({'kind': 'errctx', 'sample': 'eval', 'repeat': 3})          # a wrapped error: its __context__ is what was wrapped
-    if CTX_KEY in known_keys():
-        out.append({'kind': 'errctx', 'sample': 'unsafe', 'repeat': 2, 'known': CTX_KEY})
+    # D40 (repaired, repo fix D43): inside `except KeyError:` two consecutive builds of an unsafe !call both raise UnsafeError, no cause
+    out += [{'kind': 'errctx', 'sample': 'unsafe', 'caller': 'KeyError', 'repeat': 2}, {'kind': 'errctx', 'sample': 'unsafe', 'caller': 'same', 'repeat': 3},
+            {'kind': 'errctx', 'sample': 'eval', 'caller': 'KeyError', 'repeat': 3}, {'kind': 'errctx', 'sample': 'merge', 'caller': 'EvalError', 'repeat': 2},
+            {'kind': 'errctx', 'sample': 'required', 'caller': 'CustomBoom', 'repeat': 2}, {'kind': 'errctx', 'sample': 'unsafe', 'caller': None, 'repeat': 4}]
     return out
